@@ -251,14 +251,14 @@ class Check:
         self.decided_by[decided_by] = self.decided_by.get(decided_by, 0) + 1
         return res, model, dt
 
-    def solve_int(self, constraints, timeout_ms=None, goal=()):
+    def solve_int(self, constraints, timeout_ms=None, goal=(), small_first=False):
         """the query translated exactly into non-linear integer arithmetic (mirsym.intify); a sat answer is mapped back to
         the original variables and re-validated against the original constraints"""
         from . import intify
         t0 = time.time()
         self.queries += 1
         budget = min(timeout_ms or self.timeout_ms, 30000)
-        res, payload, itf = intify.solve(list(constraints) + list(G.facts), budget, goal=list(goal))
+        res, payload, itf = intify.solve(list(constraints) + list(G.facts), budget, goal=list(goal), small_first=small_first)
         out = ('unknown', payload)
         if res == 'unsat':
             out = ('unsat', None)
@@ -460,7 +460,15 @@ class Check:
             self._handle_cex(name, rec, pc, neg, excl, model, inputs, replay, describe)
         # known findings: confirm each still reproduces, then print the KNOWN-FINDING line
         for e, rt in region_terms:
-            r2, m2, dt2 = self.solve(list(pc) + [neg, rt])
+            # a finding may name a witness (values of the obligation's inputs): the region query is then a ground check
+            pin = []
+            for wk, wv in (e.get('witness') or {}).items():
+                if wk in inputs and z3.is_bv(inputs[wk]):
+                    pin.append(inputs[wk] == z3.BitVecVal(int(wv), inputs[wk].size()))
+            if arith == 'int':
+                r2, m2, dt2 = self.solve_int(list(pc) + [rt] + pin, goal=[neg], small_first=True)
+            else:
+                r2, m2, dt2 = self.solve(list(pc) + [neg, rt] + pin)
             rec['solver_s'] = round(rec['solver_s'] + dt2, 3)
             if r2 == 'sat':
                 rep = None
@@ -552,7 +560,7 @@ class Check:
 
     def cover_int(self, name, constraints):
         """vacuity guard decided through the integer translation (falls back to the ordinary portfolio)"""
-        res, model, dt = self.solve_int(list(constraints))
+        res, model, dt = self.solve_int(list(constraints), small_first=True)
         if res == 'sat':
             self.covers.append({'id': name, 'reachable': True, 'solver_s': round(dt, 3)})
             return model
